@@ -60,6 +60,7 @@ def run(F, R, tier, cfg):
     R.extra["entries"] = ents
     PN.check_entries(F, R, "C16", ents, cfg)
     matcher_rules(F, R)
+    first_match_rule(F, R)
 
 
 H = POL + "hop_pattern::HopPatternExpression::"
@@ -174,3 +175,59 @@ def matcher_rules(F, R):
             R.violation("POS", MF + "/" + fmt(FX.strip_sites(mb.origin(c.args[1])), 40), "match_from yields a position that is neither pos nor pos + 1 under pos < hops.len() "
                         "(%s): the visited set's universe is no longer finite / bounded by the hop count" % fmt(mb.origin(c.args[1]), 60), c.span.loc)
 
+
+
+ACLM = POL + "acl::AclPolicy::matches"
+ENTRY_MATCH = POL + "acl::AclEntry::matches"
+AMR = POL + "acl::AclMatchResult"
+
+
+def first_match_rule(F, R):
+    """FIRST-MATCH: "the first entry whose predicate matches the hop decides".  Every call of AclEntry::matches inside
+    AclPolicy::matches (and its closures) feeds a three-way decision on the AclMatchResult discriminant in which exactly
+    the Impartial arm goes on to the next entry of the same scan; the Allow and the Deny arm both leave the scan.  A scan
+    that folds Deny into "no match" (`entries.iter().any(|e| e.matches(hop) == Allow)`) lets a later, broader allow entry
+    override an earlier deny."""
+    adt = F.adts.get(AMR)
+    if adt is None:
+        R.anchor_missing(AMR)
+        return
+    disc = {v[0]: v[1] for v in adt["variants"]}
+    fns = [p for p in [ACLM] + list(F.closure_children(ACLM)) if F.has_body(p)]
+    fns += [q for p in list(fns) for q in F.closure_children(p) if F.has_body(q) and q not in fns]
+    n = 0
+    for p in fns:
+        b = F.body(p)
+        for c in b.calls:
+            if c.indirect or (c.res or c.decl) != ENTRY_MATCH or c.bb not in b.live_blocks():
+                continue
+            n += 1
+            R.fn(p)
+            # the iterator `next` that produced the entry, and the creation of that iterator
+            eo = b.origin(c.args[0])
+            nexts = [x[5] for x in walk(eo) if x[0] == "call" and len(x) > 5 and x[1].endswith("Iterator>::next")]
+            inits = [x[5] for x in walk(eo) if x[0] == "call" and len(x) > 5 and re.search(r"::(into_iter|iter)$", x[1])]
+            sw = None
+            for g in sorted(b.live_blocks()):
+                t = b.term(g)
+                if t[0] == "switch":
+                    o = b.origin(t[1])
+                    if o[0] == "disc" and any(x[0] == "call" and len(x) > 5 and x[5] == c.bb for x in walk(o)):
+                        sw = (g, t)
+            ok, why = False, ""
+            if sw is None or not nexts:
+                why = "the result is not decided three-way on its discriminant inside a scan loop (folded into a boolean, or the scan is an iterator adaptor)"
+            else:
+                g, t = sw
+                arms = {v: tg for v, tg in t[2]}
+                cont = {}
+                for name, d in disc.items():
+                    tg = arms.get(d, t[3])
+                    cont[name] = tg is not None and nexts[0] in b.reach([tg], avoid=set(inits))
+                ok = cont.get("Impartial") and not cont.get("Allow") and not cont.get("Deny")
+                why = "arms that go on to the next entry: %s" % sorted(k for k, v in cont.items() if v)
+            R.ob("FIRST-MATCH", "%s: only a non-matching entry continues the scan (%s)" % (short(p), why), bool(ok), True,
+                 {"rule": "FIRST-MATCH", "fn": p, "loc": c.span.loc, "detail": why, "holds": bool(ok)})
+            if not ok:
+                R.violation("FIRST-MATCH", p, "ACL evaluation in %s is not first-match: %s" % (short(p), why), c.span.loc)
+    R.floor("FIRST-MATCH", n, 1, "AclEntry::matches calls in AclPolicy::matches")
